@@ -33,14 +33,15 @@ var (
 )
 
 type SolverProc struct {
-	mu    sync.Mutex
-	cfg   SolverConfig
-	cmd   *exec.Cmd
-	in    io.WriteCloser
-	out   *bufio.Reader
-	lines chan string
-	dead  bool
-	Stats *SolverStats
+	mu                sync.Mutex
+	busy, interrupted bool
+	cfg               SolverConfig
+	cmd               *exec.Cmd
+	in                io.WriteCloser
+	out               *bufio.Reader
+	lines             chan string
+	dead              bool
+	Stats             *SolverStats
 }
 
 type SolverStats struct {
@@ -121,6 +122,27 @@ func (p *SolverProc) restart() {
 
 // RunScript sends a full script (after a reset) and returns the verdict and, for sat, the values of vars.
 func (p *SolverProc) RunScript(script string, vars []string, timeoutMs int) (string, map[string]string) {
+	p.mu.Lock()
+	p.busy, p.interrupted = true, false
+	p.mu.Unlock()
+	res, m := p.runScript(script, vars, timeoutMs)
+	p.mu.Lock()
+	intr := p.interrupted
+	p.mu.Unlock()
+	if (res == "error:write" || res == "died") && !intr {
+		// the process died for another reason: retry once on a fresh process
+		res, m = p.runScript(script, vars, timeoutMs)
+	}
+	p.mu.Lock()
+	p.busy = false
+	p.mu.Unlock()
+	if res == "died" {
+		res = "unknown"
+	}
+	return res, m
+}
+
+func (p *SolverProc) runScript(script string, vars []string, timeoutMs int) (string, map[string]string) {
 	if p.dead {
 		p.start()
 		if p.dead {
@@ -156,7 +178,7 @@ loop:
 			if !ok {
 				p.restart()
 				p.Stats.Unknown.Add(1)
-				return "unknown", nil
+				return "died", nil
 			}
 			ln = strings.TrimSpace(ln)
 			switch {
@@ -474,6 +496,10 @@ func (pf *Portfolio) Solve(scripts []string, vars []string, budgetsMs []int) Ver
 func (p *SolverProc) Interrupt() {
 	p.mu.Lock()
 	defer p.mu.Unlock()
+	if !p.busy {
+		return
+	}
+	p.interrupted = true
 	if p.cmd != nil && p.cmd.Process != nil {
 		p.cmd.Process.Kill()
 	}
